@@ -38,7 +38,7 @@ UOD_NAMES = ("Short", "Long", "Long2", "Other", "Fail", "Set1", "SetPlain", "Dri
 
 
 def plan(tier, seed):
-    n = 128 if tier == "quick" else 4000
+    n = 128 if tier == "quick" else 1000
     shards = 16 if tier == "quick" else 50
     return [{"seed": seed * 1000003 + i, "n": max(1, n // shards), "max_depth": 3 if tier == "quick" else 4}
             for i in range(shards)]
@@ -142,7 +142,6 @@ def check_case(case, res: Result):
         per: dict[str, list] = {}
         for ev in log:
             per.setdefault(ev[3], []).append(ev)
-        race = _raced_with_stop(CR.REQS, kind)
         # same-tick bursts of mutually conflicting requests (the C11 mechanism): the older request re-creates its instance
         alive: set = set()
         alive_at: dict[int, set] = {}
@@ -158,6 +157,7 @@ def check_case(case, res: Result):
         name_of = {iid: evs[0][2] for iid, evs in per.items()}
         bursts = CR.burst_tainted(list(CR.REQS), alive_at, name_of, _conflicts, UOD_NAMES)
         tainted = set().union(*bursts.values()) if bursts else set()
+        race = CR.stop_race_tainted(list(CR.REQS), alive_at, name_of, _conflicts, UOD_NAMES)
         ent = next((x for x in sl.stops if x["run_id"] == run1), None)
         misbooked = CR.misbooked_conclusions(ent["records"]) if ent is not None else set()
 
